@@ -103,6 +103,9 @@ def run_tlc(module, cfg, out_name=None, workers=8, timeout=900, extra=None, env=
     e = dict(os.environ)
     if env:
         e.update(env)
+    # TLC leaves an empty tlc-<n> directory in java.io.tmpdir per run: keep it inside the scratch copy
+    os.makedirs(os.path.join(sdir, "jtmp"), exist_ok=True)
+    e["JAVA_TOOL_OPTIONS"] = (e.get("JAVA_TOOL_OPTIONS", "") + " -Djava.io.tmpdir=" + os.path.join(sdir, "jtmp")).strip()
     t0 = time.time()
     with open(out, "w") as f:
         p = subprocess.run(cmd, cwd=sdir, stdout=f, stderr=subprocess.STDOUT, env=e)
